@@ -30,3 +30,22 @@ DECIDES += (' C12-MATCH: the match finder takes candidates from the hash bucket 
 NOT_DECIDED = ('that offsets never reach before the start of the output (follows from the match finder invariants only together with the order of hash insertions), the lazy-matching '
                'heuristic (affects only the ratio), the stdlib codecs of the other algorithms.')
 MUTATIONS = 'see /verif/mutants/C12/*/meta.json (33 brainstormed mutants: 26 breaking - all reported, 7 behaviour-preserving - all silent)'
+
+# sixth strengthening round (session I1): C12-EXTENT (sa/rules/sC12.py, rule_extent / token_footprint / TokenExec)
+TECHNIQUE += ("; symbolic execution of one step of the decoder's token loop on clang's AST with linear forms over the start-of-step positions, dst_len, the token's input bytes and "
+              'atoms for masks/shifts of them: branches on input bytes split the byte\'s value set exactly, branches on dst_len become constraints on the room left, copy loops are run for '
+              'every value of the bytes their bound depends on, helpers of the same file are inlined')
+DECIDES += (' C12-EXTENT: for every token the format can express and every amount of room R left in the output (R >= what the token denotes - the stream is the compressor\'s): '
+            'every store into the output (memcpy / memmove / byte store, also inside a copy loop or a helper) lies inside the token\'s slice [out_pos, out_pos + advance) or is kept below '
+            'dst_len by the conditions that dominate it (a "wild copy" needs a guard that leaves room for its surplus); the stores cover the whole slice; a copy out of the output reads only '
+            'below its own destination (no overlapping memcpy, no not-yet-decoded bytes) and all copies of a token use one displacement; the advance does not depend on the room; only input '
+            'bytes that the step consumes are read. C12-STRUCT bound-test and C12-LIT literal / return are now decided on the same execution (the step returns exactly when room == advance, '
+            'with the input position; a literal stores input byte 0 at offset 0 and advances by one) instead of by the place and spelling of the statements; an error exit that only '
+            'malformed streams reach (`if (out_pos + n > dst_len) return 0;`) is recognised as such.')
+NOT_DECIDED = ('that offsets never reach before the start of the output (follows from the match finder invariants only together with the order of hash insertions), the lazy-matching '
+               'heuristic (affects only the ratio), the stdlib codecs of the other algorithms; behaviour of the decoder on streams the compressor cannot produce (it trusts the stream: '
+               'C12-EXTENT assumes at least as much room as the token denotes); a decoder restructured around running pointers instead of positions, `break` out of the token loop, goto / '
+               'switch in the token step end in ANALYSIS-ERROR, not in a verdict.')
+MUTATIONS = ('see /verif/mutants/C12/*/meta.json (56 brainstormed mutants: 40 breaking - all reported, 16 behaviour-preserving - all silent); round 6 added x6-* (14 breaking edits of the '
+             'copy / store / stop mechanism of the decoder) and P6-* (9 rewrites: byte loop, blocks + tail, guarded wild copy, pointer + memmove, helper, early continue, renamed locals, '
+             'defensive bounds test, literal through pointer arithmetic)')
